@@ -9,10 +9,13 @@ package main
 import (
 	"encoding/hex"
 	"encoding/json"
+	"fmt"
 	"os"
 	"path/filepath"
 	"sync"
+	"time"
 
+	"verifharness/internal/gofuzz"
 	"verifharness/internal/isish"
 	"verifharness/internal/vf"
 )
@@ -130,12 +133,45 @@ func runCase(c isish.Case, out *isish.Outcome) {
 	}
 }
 
+// fuzzBudget is the execution count of the coverage-guided stage (thorough tier only).
+const fuzzBudget = 1000000
+
+// fuzzStage runs the native Go fuzz target FuzzISISDecode (verifharness/fuzz, seeded with valid hellos, LSPs, CSNPs and
+// PSNPs) as a child `go test -fuzz` for a fixed number of executions. The engine only searches: an input it saves as
+// failing becomes a one-input "dec" case and is judged by DecodeInput in a child like every mutated input, so that the
+// violation carries the usual clause and features and is reconfirmed from its replay file without go test.
+func fuzzStage(r *vf.Run, opts isish.Opts) {
+	res := gofuzz.Run(gofuzz.Opts{Name: "FuzzISISDecode", Execs: fuzzBudget, Workers: 8, Watchdog: 20 * time.Minute})
+	gofuzz.Record(r, res, "FuzzISISDecode", fuzzBudget)
+	if !res.Found || res.Crasher == nil {
+		return
+	}
+	var in []byte
+	ok := len(res.Crasher) == 1
+	if ok {
+		in, ok = res.Crasher[0].([]byte)
+	}
+	if !ok {
+		r.Inconclusive(fmt.Sprintf("native fuzzing: crasher %s does not have the shape ([]byte)", res.CrasherFile))
+		return
+	}
+	h := hex.EncodeToString(in)
+	r.Set("fuzz_failing_input", map[string]any{"input": h, "engine_report": res.FailureText[:min(len(res.FailureText), 600)]})
+	cs := []isish.Case{{Kind: "dec", Raw: isish.MustJSON(decCase{Inputs: []string{h}, Muts: []string{"go-fuzz"}})}}
+	outs := isish.RunBatch(cs, isish.Opts{Workers: 1, Scratch: opts.Scratch, BatchSize: 1})
+	isish.Apply(r, cs, outs, func(isish.Case) map[string]string { return map[string]string{"decoder": "Decode"} })
+	if len(outs[0].V) == 0 && outs[0].Crash == nil {
+		r.Inconclusive(fmt.Sprintf("native fuzzing: the engine saved a failing input that this check's oracle accepts (input %s): %s", h, res.FailureText[:min(len(res.FailureText), 400)]))
+	}
+}
+
 func main() {
 	if isish.IsChild() {
 		isish.ChildMain(runCase)
 	}
 	vf.Main("C30", "exploration", func(r *vf.Run) {
-		r.Rule("(decode-panic) 150 000 byte strings derived from valid PDUs of every type code (P2P/LAN hellos, L1/L2 LSP, CSNP, PSNP; every TLV type bio-rd knows plus unknown ones) by 1-3 mutations out of: bit flip, boundary byte, truncation (anywhere / inside a TLV), appended octets, TLV length edit, TLV type edit, PDU type edit, inserted TLV of a known type with a short or long value, duplicated TLV, splice of two PDUs, fixed-header field edit; each handed to packet.Decode (and packet.DecodeL2Hello for LAN hellos) under recover, in child processes with a watchdog. (encoding, roundtrip, snp-set, panic) 30 000 PDUs built through bio-rd's constructors in the shape the server builds them: P2P hellos (three-way TLV with and without neighbor, protocols supported, 0..70 IP interface addresses, 0..3 area addresses, padding, checksum, IS neighbors TLV), LSPs (area, protocols, IP interface addresses, extended IP reachability with 0..40 prefixes of length 0..32, extended IS reachability with 0..12 neighbors and their sub-TLVs, hostname 0..255 octets, TE router id, unknown TLV; UpdateLength + SetChecksum), CSNPs and PSNPs from NewCSNPs/NewPSNPs with 0..200 entries and several maximum PDU lengths: serialised octets equal an independent ISO 10589 encoder's (specs whose content does not fit a single TLV are skipped and counted), Decode succeeds, decoded fields equal (typed TLVs field by field, unknown TLVs octet by octet), Serialize(Decode(x)) == x, the SNPs together carry all entries. (roundtrip src=wire) 12 000 well-formed PDUs built by the independent encoder in layouts Decode accepts but the server may never emit (three-way TLV in all four RFC 5303 layouts 1/5/11/15, TLVs shuffled and repeated, empty TLVs, unknown TLVs, several LSP Entries TLVs of 0..15 entries per SNP, IS reachability, TE router id, sub-TLVs): Decode succeeds, sees the same content as the independent parser (three-way fields compared one by one) and Serialize(Decode(x)) == x. (emitted-malformed, roundtrip) every distinct PDU emitted by the running server in samples of the adjacency, LSDB and interface workloads and by servers with 1..40 interfaces, up to 70 addresses per interface (up to 31 on interfaces with an adjacency) and 0..12 Up adjacencies: well-formed for the independent parser, decodes, re-serialises to the same octets, same content for both decoders. distinct_nontrivial = distinct mutated inputs that got past the fixed header into the TLV loop + distinct generated PDU shapes + distinct emitted PDUs")
+		rule := "(decode-panic) 150 000 byte strings derived from valid PDUs of every type code (P2P/LAN hellos, L1/L2 LSP, CSNP, PSNP; every TLV type bio-rd knows plus unknown ones) by 1-3 mutations out of: bit flip, boundary byte, truncation (anywhere / inside a TLV), appended octets, TLV length edit, TLV type edit, PDU type edit, inserted TLV of a known type with a short or long value, duplicated TLV, splice of two PDUs, fixed-header field edit; each handed to packet.Decode (and packet.DecodeL2Hello for LAN hellos) under recover, in child processes with a watchdog. (encoding, roundtrip, snp-set, panic) 30 000 PDUs built through bio-rd's constructors in the shape the server builds them: P2P hellos (three-way TLV with and without neighbor, protocols supported, 0..70 IP interface addresses, 0..3 area addresses, padding, checksum, IS neighbors TLV), LSPs (area, protocols, IP interface addresses, extended IP reachability with 0..40 prefixes of length 0..32, extended IS reachability with 0..12 neighbors and their sub-TLVs, hostname 0..255 octets, TE router id, unknown TLV; UpdateLength + SetChecksum), CSNPs and PSNPs from NewCSNPs/NewPSNPs with 0..200 entries and several maximum PDU lengths: serialised octets equal an independent ISO 10589 encoder's (specs whose content does not fit a single TLV are skipped and counted), Decode succeeds, decoded fields equal (typed TLVs field by field, unknown TLVs octet by octet), Serialize(Decode(x)) == x, the SNPs together carry all entries. (roundtrip src=wire) 12 000 well-formed PDUs built by the independent encoder in layouts Decode accepts but the server may never emit (three-way TLV in all four RFC 5303 layouts 1/5/11/15, TLVs shuffled and repeated, empty TLVs, unknown TLVs, several LSP Entries TLVs of 0..15 entries per SNP, IS reachability, TE router id, sub-TLVs): Decode succeeds, sees the same content as the independent parser (three-way fields compared one by one) and Serialize(Decode(x)) == x. (emitted-malformed, roundtrip) every distinct PDU emitted by the running server in samples of the adjacency, LSDB and interface workloads and by servers with 1..40 interfaces, up to 70 addresses per interface (up to 31 on interfaces with an adjacency) and 0..12 Up adjacencies: well-formed for the independent parser, decodes, re-serialises to the same octets, same content for both decoders. distinct_nontrivial = distinct mutated inputs that got past the fixed header into the TLV loop + distinct generated PDU shapes + distinct emitted PDUs"
+		r.Rule(rule)
 		r.Assume("PDUs are serialised the way the server does it: ISISHeader with the length indicator of the PDU type followed by the body's Serialize; Decode is given the 3 LLC octets in front, as on the receive path",
 			"the LSP checksum is not part of the equality (counted separately): the statement speaks of content")
 		opts := isish.Opts{Workers: 8, Scratch: filepath.Join(os.TempDir(), "isis"), BatchSize: 12}
@@ -144,6 +180,13 @@ func main() {
 			outs := isish.RunBatch([]isish.Case{c}, opts)
 			isish.Apply(r, []isish.Case{c}, outs, nil)
 			return
+		}
+		if !r.Quick() {
+			r.Rule(rule + fmt.Sprintf(". Thorough tier only: afterwards the coverage-guided native Go fuzzing engine runs FuzzISISDecode (LLC + PDU of at most 4096 octets, seeded with the valid PDU corpus of the decode-panic workload and 64 well-formed PDUs of the independent encoder; packet.Decode and, for LAN hello type codes, packet.DecodeL2Hello) for %d executions on 8 workers; an input it reports as failing is judged by the same decode-panic/decode-nil oracle in a child", fuzzBudget))
+			if os.Getenv("C30_ONLY_FUZZ") != "" { // development aid: the fuzzing stage alone
+				fuzzStage(r, opts)
+				return
+			}
 		}
 		var cases []isish.Case
 		corpus := isish.Corpus()
@@ -231,6 +274,9 @@ func main() {
 		if len(single) > 0 {
 			o2 := isish.RunBatch(single, isish.Opts{Workers: 8, Scratch: opts.Scratch, BatchSize: 50})
 			isish.Apply(r, single, o2, func(isish.Case) map[string]string { return map[string]string{"decoder": "Decode"} })
+		}
+		if !r.Quick() {
+			fuzzStage(r, opts)
 		}
 		r.Require("decode_errors", 10000)
 		r.Require("decode_ok", 10000)
